@@ -13,6 +13,8 @@
 //                 c<new>/<old>  "Merging overlapping ..." (MakeCombinedValue; cannot be printed: it asserts first)
 //        shape  = the splay tree after parse() / after the last match(): node = '(' left hex(value) right ')', nil = '' ,
 //                 the empty tree = "~"; bits = one 0/1 per host.
+//     -> reject:exception:<partial-overlap|multi-dot|other>   parse() threw (Assure in MakeCombinedValue / a tree with the
+//                               candidate fix refusing a value that begins with two dots)
 //     -> reject:harness-token   a value that ConfigParser would not hand to parse() verbatim
 //     -> the process dies with a sanitizer report (the framework turns that into abort:<summary>) or with exit 87
 //        "hang" when one line takes longer than 120 s (Merge never terminates)
@@ -255,7 +257,8 @@ static std::string handleD(const std::string &vals, const std::string &hostsFiel
         result = "reject:self-destruct";
     } catch (const std::exception &e) {
         // Assure() in MakeCombinedValue throws a TextException
-        result = std::string("reject:exception:") + (strstr(e.what(), "cannot partially overlap") ? "partial-overlap" : "other");
+        result = std::string("reject:exception:") + (strstr(e.what(), "cannot partially overlap") ? "partial-overlap" :
+                                                     strstr(e.what(), "two dots") ? "multi-dot" : "other");
     }
     ConfigParser::SetCfgLine(nullptr); // frees the token copies the parser made
     delete[] buf;
